@@ -1,9 +1,11 @@
 """C09 - scripts see the device's bytes unaltered, in order, once.
 
-proof:   Properties/C09.v (cbuf.c refines a bounded FIFO; the telnet filter + buffer computes TelnetSpec.parse of the
-         stream for every split into reads and every interleaved consumption; NUL view; reconnect)
-tie:     R-CBUF  harness/cbuf_h.c   (real cbuf.c, scripted read()/write())   vs extracted Model/Cbuf.v
-         R-TEL   harness/telnet_h.c (real device_tcp.c filter on real cbufs)  vs extracted Model/Telnet.v
+proof:   Properties/C09.v (cbuf.c refines a bounded FIFO for every op list; in-order-once delivery ledger; the telnet
+         filter + buffer computes TelnetSpec.parse of the stream for every split into reads and every interleaved
+         consumption; NUL view of _getregex_buf; reconnect after an arbitrary first connection)
+tie:     R-CBUF  harness/cbuf_h.c   (real cbuf.c, scripted read()/write())   vs extracted Model/Cbuf.v (Cbuf.step)
+         R-TEL   harness/telnet_h.c (real cbuf.c + device_tcp.c + device.c: _handle_ready_device(POLLIN/POLLOUT),
+                 _getregex_buf, _disconnect, tcp_finish_connect_one on real cbufs)  vs extracted Model/Telnet.v
          gen/gen_cbuf.py -> Gen/GenCbuf.v (CBUF_CHUNK, allocation overhead, overwrite enum, telnet bytes)
 search:  the monitor = extracted Spec/Fifo.v and Spec/TelnetSpec.v evaluated on the IMPLEMENTATION's outputs
          (driver/cbuf_drv.ml monitor / tmonitor), on corpus + generated cases + the small-scope exhaustive sweep.
@@ -16,7 +18,7 @@ HERE = vlib.VERIF
 LOCK = threading.Lock()
 OPNAME = {"w": "write", "W": "write", "p": "peek", "r": "read", "d": "drop", "l": "read_line", "k": "peek_line",
           "f": "write_from_fd", "t": "read_to_fd", "x": "flush", "u": "used", "o": "opt_set", "c": "preprocess",
-          "s": "handle_write", "R": "reconnect"}
+          "s": "handle_write", "R": "reconnect", "e": "getregex_buf"}
 IAC, DONT, DO, WONT, WILL, SB, SE, NOP = 255, 254, 253, 252, 251, 250, 240, 241
 REPLY_OPTS = [3, 6, 24, 31, 39, 35, 32, 1, 33, 0]
 
@@ -325,9 +327,14 @@ def gen_telnet_case(rng, cid, big=False):
         unread += d1 - d0; unanswered += r1 - r0
         i += k
         x = rng.random()
-        if x < 0.35:
+        if x < 0.20:
             n = rng.choice([0, 1, 2, unread, unread + 1, rng.randrange(0, unread + 2)])
             ops.append("d %d" % n); unread = max(0, unread - n)
+        elif x < 0.40:
+            n = min(rng.choice([0, 1, 2, unread, unread + 1, rng.randrange(0, unread + 2)]), 250)
+            ops.append("e %d" % n)
+            if n <= unread:
+                unread -= n
         x = rng.random()
         if x < 0.2:
             acc = [str(rng.choice([1, 2, 3, 4, -1, 100])) for _ in range(rng.randrange(0, 3))]
@@ -482,7 +489,11 @@ def load_corpus():
 
 def build(ctx):
     impl_c = ctx.cc([HERE + "/harness/cbuf_h.c"], "cbuf_h")
-    impl_t = ctx.cc([HERE + "/harness/telnet_h.c"], "telnet_h")
+    # telnet_h.c #includes cbuf.c, device_tcp.c and device.c of the scratch copy; what device.c's entry points reach is linked
+    # from the tree, the rest of device.c is discarded by --gc-sections
+    deps = [os.path.join(ctx.repo, "src", f) for f in ("liblsd/list.c", "libcommon/xregex.c", "powerman/arglist.c", "powerman/pluglist.c",
+                                                        "liblsd/hostlist.c", "liblsd/hash.c")]
+    impl_t = ctx.cc([HERE + "/harness/telnet_h.c"] + deps, "telnet_h", extra=["-ffunction-sections", "-fdata-sections", "-Wl,--gc-sections"])
     model = ctx.ocaml_driver("cbuf_model", "cbufmodel", "cbuf_drv.ml")
     return Side(ctx, "cbuf", impl_c, model), Side(ctx, "telnet", impl_t, model)
 
@@ -498,8 +509,9 @@ def run(ctx, V):
               "short reads, EOF, EAGAIN / read_to_fd with scripted short writes / flush / used / opt_set) on buffers created with minsize 1..64 and "
               "maxsize around it, on medium pairs that grow in CBUF_CHUNK steps, and on the real 1024/65536 and 1024/1048576 pairs; lengths are aimed at "
               "free-space, size and capacity boundaries +-1.  R-TEL: random telnet streams (data, IAC IAC, IAC DO/DONT/WILL/WONT opt, IAC cmd, stray IAC, NUL) "
-              "cut into reads of random length, interleaved with partial consumption, partial writes of the replies and reconnects, on small buffers (wrap, growth) "
-              "and on 1024/65536; plus the small-scope exhaustive sweep.  non-trivial = unread data wrapped around the array end, the buffer grew, bytes were "
+              "cut into reads of random length (each read = device.c:_handle_ready_device(XPOLLIN)), interleaved with partial consumption (cbuf_peek+cbuf_drop, and "
+              "expects ^.{n} through the real _getregex_buf), partial writes of the replies (_handle_ready_device(XPOLLOUT)) and reconnects (_disconnect + "
+              "tcp_finish_connect_one), on small buffers (wrap, growth) and on 1024/65536; plus the small-scope exhaustive sweep.  non-trivial = unread data wrapped around the array end, the buffer grew, bytes were "
               "overwritten, or the stream contained an IAC.  Monitor: extracted Spec/Fifo.v / Spec/TelnetSpec.v evaluated on the implementation's outputs.")
     corpus = load_corpus()
     V.count("corpus:cbuf", len(corpus["cbuf"])); V.count("corpus:telnet", len(corpus["telnet"]))
